@@ -1214,6 +1214,10 @@ def lock_check(prop, tier):
     rest = [x for x in scheds if not any(st.get("blocks") for st in x[1])]
     chosen = (blocking + rest)[:limit] if len(blocking) < limit * 0.8 else blocking[:int(limit * 0.8)] + rest[:int(limit * 0.2)]
     scen = [{"id": i, "mode": "lockstep", "threads": nth, "steps": h} for i, (nth, h) in enumerate(chosen, 1)]
+    # long holds: the waiter is watched for seconds (thorough: more than a minute) instead of 20 ms
+    two = [(nth, h) for nth, h in blocking if nth == 2 and sum(1 for st in h if st.get("blocks")) == 1]
+    for ms, (nth, h) in zip(([2600, 2600] if tier == "quick" else [2600, 2600, 11000, 65000]), two):
+        scen.append({"id": len(scen) + 1, "mode": "lockstep", "threads": nth, "steps": h, "block_ms": ms})
     vlib.build_harness()
     groups, order, _ = vlib.run_harness("locks", scen, "locks_C04", timeout=3000)
     run.extra["schedules"] = {"generated": len(scheds), "executed": len(scen), "with_blocking": len(blocking)}
@@ -1539,6 +1543,10 @@ def sig_check(prop, tier):
         scen = []
         for i, form in enumerate(["func", "closure", "fake", "typed-unchecked", "unchecked-typed", "null-fake", "null-target"], 1):
             scen.append({"id": i, "mode": "pairs", "form": form, "types": fam["types"]})
+        # the verdict does not depend on the injector's history: the same pair first goes in through the unchecked entry
+        # points, then the checked request follows in the same injector
+        for form in ("func", "fake", "closure"):
+            scen.append({"id": len(scen) + 1, "mode": "pairs", "form": form, "types": fam["types"], "primed": True})
         groups, order, _ = vlib.run_harness("sig", scen, "sig_C09")
         # the same gate through EVERY arm of fake!: identical type accepted, another kind refused
         n_total, ok_arms, failed, nscen, arms_, _sc = arms_pipeline(run, "C09", 1)
@@ -1590,7 +1598,8 @@ def sig_check(prop, tier):
             ref += e["verdict"] == "refused"
         if sid not in tv["accepted"]:
             if e["ev"] == "Pair":
-                key = "C09 form=%s target=%s fake=%s verdict=%s" % (e["form"], e["ta"]["text"], e["tb"]["text"], e["verdict"])
+                key = "C09 form=%s%s target=%s fake=%s verdict=%s" % (e["form"], " after the same pair through the unchecked entry points" if e.get("primed") else "",
+                                                                        e["ta"]["text"], e["tb"]["text"], e["verdict"])
             elif e["ev"] == "BoolGate":
                 key = "C10 ret=%s verdict=%s" % (e["fam"]["ret"], e["verdict"])
             else:
